@@ -161,7 +161,7 @@ def implOk (a : Ast) (m : Module) (i : Impl) : Bool :=
         | .defaultData fd => (match findVariant vs "default" with | some (some t) => fd.fits a m t | _ => false)
         | _ => true)
      | .enum arms, .enum _ vs =>
-       arms.all (fun (p, mem) => litOk a (.int .i32) p && (parseIntLit p).isSome && (vs.any fun x => x.1 == mem))
+       arms.all (fun (p, mem) => (match p with | .numeric n => 0 ≤ n && n < 2^31 | .str _ => false) && (vs.any fun x => x.1 == mem))
      | .typedef fd, .typedef _ _ _ inner => fd.fits a m inner
      | _, _ => false)
 
